@@ -310,7 +310,7 @@ SPEC = {
              "every model with a closed form; a configuration is distinct by (pair or model, clause)"),
     "assumptions": ["jax storakers / extended_tube perturb C by diag(0,+-1e-4,-+1e-4): the tensortrax model function is evaluated on the "
                     "identically perturbed C (tolerance 1e-6) and the raw difference is bounded by 20 x 1e-4 x |A|",
-                    "documented moduli: the docstring equations (arruda_boyce: the series; extended tube at delta = 0; van der Waals within 2e-3)"],
+                    "documented moduli: the docstring equations (arruda_boyce: the series; extended tube at delta = 0; van der Waals within 1e-2: its unconditional Im += 1e-4 shifts the initial modulus by O(sqrt(1e-4 / (limit^2 - 3)) + a sqrt(1e-4)))"],
     "jobs": {"quick": 12, "thorough": 16},
     "timeout": {"quick": 1200, "thorough": 5400},
 }
